@@ -38,7 +38,7 @@ def check_sched(ctx, coq_ok):
     cfgs = [(2, 1), (2, 2), (3, 1)] if ctx.tier == "quick" else [(2, 1), (2, 2), (3, 1), (2, 3), (3, 2), (4, 1)]
     for nt, per in cfgs:
         rc, out = ctx.vh("vh-api", ["emit-sched", str(nt), str(per), "60000"], timeout=1500)
-        lines = [json.loads(l) for l in out.splitlines() if l.startswith("{")]
+        lines = [json.loads(l) for l in out.split("\n") if l.startswith("{")]
         if rc != 0 or not lines or "runs" not in lines[-1]:
             ctx.broken.append("K_emit: scheduler run failed for %s" % ((nt, per),))
             ctx.log(out[-600:])
@@ -89,7 +89,7 @@ def check_stress(ctx):
     for rep in range(2 if ctx.tier == "quick" else 5):
         rc, out = ctx.vh("vh-api", ["emit-stress", str(g), str(per)], timeout=600)
         try:
-            o = json.loads(out.strip().splitlines()[-1])
+            o = json.loads(out.strip().split("\n")[-1])
         except Exception:
             ctx.broken.append("emit-stress failed: " + out[-300:])
             return
@@ -107,7 +107,7 @@ def check_multi(ctx):
     for rep in range(2 if ctx.tier == "quick" else 4):
         rc, out = ctx.vh("vh-api", ["emit-multi", str(ns), str(g), str(per), str(nd)], timeout=900)
         try:
-            o = json.loads(out.strip().splitlines()[-1])
+            o = json.loads(out.strip().split("\n")[-1])
         except Exception:
             ctx.broken.append("emit-multi failed: " + out[-300:])
             return
@@ -158,7 +158,7 @@ def replay(ctx, path):
     if r.get("how"):
         args = r["how"].split()
         rc, out = ctx.vh(args[0], args[1:], timeout=1500)
-        bad = [l for l in out.splitlines() if l.startswith("{") and '"obs"' in l]
+        bad = [l for l in out.split("\n") if l.startswith("{") and '"obs"' in l]
         print("schedules run:", len(bad))
         print(out[-1500:])
     return 0
